@@ -558,6 +558,17 @@ func (e *Engine) allocObject(st *State, t types.Type, hint string) Val {
 			p := &Ptr{Kind: pField, Ref: r, Root: t, Path: []int{i}}
 			e.storePtr(st, p, term(e.zero(u.Field(i).Type()), u.Field(i).Type()))
 		}
+		// abstract fields of a zero-valued library object start at their zero value (a zero strings.Builder is empty)
+		if qn := qualifiedTypeName(t); qn != "" {
+			for name := range e.P.absFields[qn] {
+				if hn, hs, ft, ok := e.absFieldOf(pt, name); ok {
+					if _, ghost := ft.(*GhostT); !ghost {
+						h := e.heapGet(st, hn, hs)
+						e.heapSet(st, hn, hs, fmt.Sprintf("(store %s %s %s)", h, r, e.zero(ft)))
+					}
+				}
+			}
+		}
 	case *types.Array:
 		name, sort := e.arrMapName(u.Elem())
 		h := e.heapGet(st, name, sort)
